@@ -2,7 +2,7 @@
 From Coq Require Import ZArith Reals Lra Psatz List Bool Lia Nsatz.
 From Coquelicot Require Import Coquelicot.
 From PW Require Import Num NumR Vec Mat NpList Result.
-From PW.model Require Import M_rodrigues.
+From PW.model Require Import M_rodrigues M_rodrigues_spec.
 From PW.proofs Require Import P_vec P_mat P_rodrigues.
 Import ListNotations.
 Local Open Scope R_scope.
